@@ -533,8 +533,12 @@ func RunCheck(id, tier string, nworkers int) int {
 						}
 					}
 					if !found {
-						unconfirmed = append(unconfirmed, fmt.Sprintf("%s (phase %s): not reproduced on replay %d", v.Sig, name, i))
-						skipThis = true
+						if rerunShardReproduces(self, id, tier, tmp, name, v) {
+							confirmed.Detail["confirmation"] = "history-dependent: does not reproduce in isolation but reproduces when the worker shard is re-run from its start in a fresh process (the library keeps state between calls)"
+						} else {
+							unconfirmed = append(unconfirmed, fmt.Sprintf("%s (phase %s): not reproduced on replay %d", v.Sig, name, i))
+							skipThis = true
+						}
 						break
 					}
 				}
@@ -707,7 +711,8 @@ func rerunShardReproduces(self, id, tier, tmp, phase string, v Violation) bool {
 		return false
 	}
 	for _, x := range st.Violations {
-		if x.Sig == v.Sig && fmt.Sprint(x.Choices) == fmt.Sprint(v.Choices) {
+		if x.Sig == v.Sig && fmt.Sprint(x.Choices) == fmt.Sprint(v.Choices) &&
+			fmt.Sprint(x.Detail["trace_init"], x.Detail["trace_ops"]) == fmt.Sprint(v.Detail["trace_init"], v.Detail["trace_ops"]) {
 			return true
 		}
 	}
